@@ -9,6 +9,7 @@ handlers for the adapter ops (C13, C17); result parts are separated by `|`
   ad_zero_copy kind A x                         -> rows cols nnz own | CRS | A*x
   ad_builder   A x                              -> rows cols | CRS | A*x
   ad_block     b A alpha x beta y               -> rows cols est | BCRS | alpha*B*x + beta*y   or `precondition`
+  ad_block_eigen b A alpha x beta y             -> as ad_block (Eigen block value type, integer data)
   ad_hybrid    b A alpha x beta y               -> alpha*B*x + beta*y                          or `precondition`
   ad_unblock   b B                              -> CRS
   ad_complex   A z                              -> rows cols nnz | CRS | Â*ẑ | A*z
@@ -87,6 +88,19 @@ def handle (op : String) (args : List String) : Option String :=
         pure (b, A, al, x, be, y)) args
       fun (b, A, al, x, be, y) =>
         if 2 ≤ b && b ≤ 4 && A.wfb && x.size == A.ncols && y.size == A.nrows then
+          match blockMatrix b A with
+          | .precondition => "precondition"
+          | .ok B =>
+            joinSp [toString B.nrows, toString B.ncols, toString (blockNonzerosEstimate b A), bar,
+              showBlkCRS (crsCopy B), bar, showVec (blockSpmv b al (crsCopy B) x be y)]
+        else badInput
+  | "ad_block_eigen" => withArgs (do
+        let b ← pNat; let A ← pCRS; let al ← pRat; let x ← pVec; let be ← pRat; let y ← pVec
+        pure (b, A, al, x, be, y)) args
+      fun (b, A, al, x, be, y) =>
+        let isInt := fun (q : Rat) => q.den == 1
+        if 2 ≤ b && b ≤ 4 && A.wfb && x.size == A.ncols && y.size == A.nrows && isInt al && isInt be &&
+            x.all isInt && y.all isInt && A.rows.all (fun r => r.all (fun cv => isInt cv.2)) then
           match blockMatrix b A with
           | .precondition => "precondition"
           | .ok B =>
